@@ -156,7 +156,22 @@ C03_CONTEXTS = [
     _ctx("trunc-list-while", "truncated", "⟨1|{2|", "", open_literal=True),
     _ctx("trunc-function-mod", "truncated", "@f:2|v", "", open_literal=True),
 ]
-assert len(C03_CONTEXTS) == 40 and len({c["id"] for c in C03_CONTEXTS}) == 40
+# --- a break / recurse element later in the same branch as a modifier whose operand is the
+#     literal: its recorded parent is part of the tree (12) ---------------------------------
+for _m, _pre, _post in [("v", "v", "+"), ("⁽", "⁽", ""), ("ß", "ß", ""), ("₌-A", "₌", "+"), ("₌-B", "₌+", ""),
+                        ("‡-B", "‡+", ""), ("₍-A", "₍", "+"), ("≬-A", "≬", "+-"), ("≬-B", "≬+", "-"),
+                        ("≬-C", "≬+-", "")]:
+    C03_CONTEXTS.append(_ctx(f"for-mod-{_m}-then-break", "mod-then-break", "(" + _pre, _post + "_n,X)"))
+C03_CONTEXTS.append(_ctx("lambda-mod-v-then-recurse", "mod-then-break", "λ&", "_n[x]1;"))
+C03_CONTEXTS.append(_ctx("while-mod-‡-A-then-break-recurse", "mod-then-break", "@f|{1|‡", "+:[X|x]};"))
+# --- long flat bodies (120 / 200 tokens around the literal): size must not matter (12) -----
+_L = "1_" * 60
+for _id, _pre, _post in [("for", "(", ")"), ("if-else", "[1|", "]"), ("if-true", "[", "|2]"), ("while-body", "{1|", "}"),
+                         ("while-cond", "{", "|1}"), ("lambda", "λ", ";"), ("map", "ƛ", ";"), ("sort", "µ", ";"),
+                         ("list", "⟨", "⟩"), ("function", "@f:2|", ";"), ("for>lambda", "(λ", ";)")]:
+    C03_CONTEXTS.append(_ctx(f"long-{_id}", "long", "2" + _pre + _L, "_" + _L + "n," + _post))
+C03_CONTEXTS.append(_ctx("long-trunc-for", "long", "2(" + _L, "_" + _L + _L))
+assert len(C03_CONTEXTS) == 64 and len({c["id"] for c in C03_CONTEXTS}) == 64
 C03_BY_ID = {c["id"]: c for c in C03_CONTEXTS}
 
 
@@ -178,7 +193,7 @@ _FRAMES = [
     ("₌", "+-"), ("₌+", "-"), ("‡", "+-"), ("‡+", "-"), ("₍", "+-"), ("₍+", "-"),
     ("≬", "+-N"), ("≬+", "-N"), ("≬+-", "N"),
 ]
-_FILLER = ["", "1", "+", "1 ", "d", ":", "_", "n", "→a", "←a ", "`s`", "\\c", "2 3", "N"]
+_FILLER = ["", "1", "+", "1 ", "d", ":", "_", "n", "→a", "←a ", "`s`", "\\c", "2 3", "N", "X", "x", "_X", "[X]", "nx"]
 
 
 def random_context(r, maxdepth=4):
@@ -192,6 +207,11 @@ def random_context(r, maxdepth=4):
         # fillers that end in a name / number need a separator before what follows
         if f1 and (f1[-1].isalnum() or f1[-1] == "_"):
             f1 += " "
+        # now and then a long flat run of tokens on either side
+        if r.random() < 0.08:
+            f1 = "1_" * r.choice([30, 50, 70]) + f1
+        if r.random() < 0.08:
+            f2 = "1_" * r.choice([30, 50, 70]) + f2
         pre = pre + f1 + o
         post = c + (" " + f2 if f2 else "") + post
     trunc = r.random() < 0.2
